@@ -1,16 +1,21 @@
 """C05 — `<name>_complete` fires exactly once, after the whole causal closure has drained.
 
-A case is a forest of scripted events.  Every event has a unique label (>= 1), flags `c` (asks for completion
-notification) and `x` (cancelled right after it was fired, i.e. before dispatch) and a list of handler scripts:
+A case is a forest of scripted events.  Every event has a unique label `l` (>= 1), flags `c` (asks for
+completion notification), `x` (cancelled right after it was fired, i.e. before dispatch), `s` / `f` (asks for
+`_success` / `_failure` feedback), a priority `p` (model scale: python priority = p - 1, lower = earlier), a
+channel `ch` (0 = 'a', 1 = 'b') and a list of handler scripts (descending handler priority):
 
-  {'t': 'p', 'f': [events fired], 's': stop?, 'r': raise?}          plain handler
-  {'t': 'g', 'st': [[events fired in step 0], [step 1], ...], 'r': k}  generator handler (one entry of 'st' per
-                                                                     next(); r = step that raises, -1 = none)
+  {'t': 'p', 'ch': c, 'f': [events fired], 's': stop?, 'r': raise?}     plain handler on channel c
+  {'t': 'g', 'ch': c, 'st': [step, ...]}                                generator handler; a step is
+        {'k': 's', 'f': [events]}   fire, then `yield None` (return after the last step)
+        {'k': 'r', 'f': [events]}   fire, then raise
+        {'k': 'c', 'e': event}      `yield self.call(event)`; continues with the next step when resumed
 
 The same script is compiled to real circuits handlers (impl) and to a Coq term (model_term).
 Observable = the global log:  [0,l,i] plain handler i of event l invoked;  [1,l,i,k] step k of generator
 handler i of event l;  [2,l] `e<l>_complete` fired;  [3,l] `e<l>_complete` dispatched;  [5,l,p] event l fired
-by a handler of event p (0 = by the harness) -- the ghost causality tree.
+by a handler of event p (0 = by the harness) -- the ghost causality tree;  [6,k,l] the manager-generated
+event of kind k (0 exception, 1 failure, 2 success, 3 done) of event l dispatched.
 """
 import sys, os, threading, signal
 sys.path.insert(0, os.path.dirname(os.path.abspath(__file__)))
@@ -23,6 +28,8 @@ from circuits.core.manager import Manager
 MAXTICKS = 400
 MAXLOG = 5000          # a run that logs more than this is a runaway loop in the code under test
 WATCHDOG_S = 10
+CH = ['a', 'b']
+SUFFIX = {'_failure': 1, '_success': 2, '_done': 3}
 
 
 class Runaway(BaseException):
@@ -68,6 +75,36 @@ class OrderedTasks(set):
         return iter(self.copy())
 
 
+def norm_ev(e):
+    """accept the first-round case format (no flags, generator steps as lists, 'r' = raising step)"""
+    e.setdefault('s', 0), e.setdefault('f', 0), e.setdefault('p', 1), e.setdefault('ch', 0)
+    for h in e['h']:
+        h.setdefault('ch', 0)
+        if h['t'] == 'p':
+            for k in h['f']:
+                norm_ev(k)
+        else:
+            r = h.pop('r', -1)
+            st = []
+            for k, s in enumerate(h['st']):
+                if isinstance(s, list):
+                    s = {'k': 'r' if k == r else 's', 'f': s}
+                st.append(s)
+                if s['k'] == 'r' and k == r:
+                    break
+            h['st'] = st
+            for s in st:
+                for k in ([s['e']] if s['k'] == 'c' else s['f']):
+                    norm_ev(k)
+    return e
+
+
+def norm_case(c):
+    for r in c['roots']:
+        norm_ev(r)
+    return c
+
+
 def walk_events(evs):
     """all event specs of a forest, pre-order"""
     for e in evs:
@@ -77,19 +114,42 @@ def walk_events(evs):
                 yield from walk_events(h['f'])
             else:
                 for st in h['st']:
-                    yield from walk_events(st)
+                    yield from walk_events([st['e']] if st['k'] == 'c' else st['f'])
 
 
-def has_gen_raise(evs):
-    return any(h['t'] == 'g' and h.get('r', -1) >= 0 for e in walk_events(evs) for h in e['h'])
+def feedback_label(event):
+    """(kind, label) of a manager-generated event about a scripted event, else None"""
+    nm = event.name
+    if nm == 'exception':
+        fe = event.kwargs.get('fevent')
+        fn = getattr(fe, 'name', '')
+        if fn[:1] == 'e' and fn[1:].isdigit():
+            return 0, int(fn[1:])
+        return None
+    for suf, k in SUFFIX.items():
+        if nm.endswith(suf) and nm[:1] == 'e' and nm[1:-len(suf)].isdigit():
+            return k, int(nm[1:-len(suf)])
+    return None
 
 
 def run_script(case):
     log = []
     objs = {}
+    genkey = {}
+    keep = []
+    stepped = []
+
+    def catch(event):
+        nm = event.name
+        if nm.endswith('_complete') and nm[:1] == 'e' and nm[1:-9].isdigit():
+            log.append([3, int(nm[1:-9])])
+        else:
+            fb = feedback_label(event)
+            if fb:
+                log.append([6, fb[0], fb[1]])
 
     class App(Component):
-        channel = 'app'
+        channel = CH[0]
 
         @handler(False)
         def fireEvent(self, event, *channels, **kw):
@@ -102,21 +162,42 @@ def run_script(case):
 
         fire = fireEvent
 
+        @handler(False)
+        def processTask(self, event, task, parent=None):
+            k = genkey.get(id(parent if parent is not None else task))
+            if k:
+                stepped.append(list(k))
+            return Manager.processTask(self, event, task, parent)
+
         @handler(priority=-5)
         def _catch_all(self, event, *args, **kwargs):
-            nm = event.name
-            if nm.endswith('_complete') and nm[:1] == 'e' and nm[1:-9].isdigit():
-                log.append([3, int(nm[1:-9])])
+            catch(event)
+
+    class Other(Component):
+        channel = CH[1]
+
+        @handler(priority=-5)
+        def _catch_all(self, event, *args, **kwargs):
+            catch(event)
 
     app = App()
+    comps = [app, Other().register(app)]
 
-    def fire_child(spec, parent):
+    def new_event(spec, parent):
         ev = Event.create('e%d' % spec['l'])
         if spec['c']:
             ev.complete = True
+        if spec['s']:
+            ev.success = True
+        if spec['f']:
+            ev.failure = True
         objs[spec['l']] = ev
         log.append([5, spec['l'], parent])
-        app.fire(ev)
+        return ev
+
+    def fire_child(spec, parent):
+        ev = new_event(spec, parent)
+        app.fire(ev, CH[spec['ch']], priority=spec['p'] - 1)
         if spec['x']:
             ev.cancel()
 
@@ -133,17 +214,26 @@ def run_script(case):
         return fn
 
     def mk_gen(L, i, hd):
-        steps, r = hd['st'], hd.get('r', -1)
+        steps = hd['st']
 
-        def fn(self, event):
+        def gen(self, event):
             for k, st in enumerate(steps):
                 log.append([1, L, i, k])
-                for ch in st:
+                if st['k'] == 'c':
+                    yield self.call(new_event(st['e'], L), CH[st['e']['ch']])
+                    continue
+                for ch in st['f']:
                     fire_child(ch, L)
-                if k == r:
+                if st['k'] == 'r':
                     raise Scripted('scripted failure in step')
                 if k < len(steps) - 1:
                     yield None
+
+        def fn(self, event):
+            g = gen(self, event)
+            genkey[id(g)] = (L, i)
+            keep.append(g)
+            return g
         fn.__name__ = 'g_%d_%d' % (L, i)
         return fn
 
@@ -151,7 +241,7 @@ def run_script(case):
         n = len(spec['h'])
         for i, hd in enumerate(spec['h']):
             f = mk_plain(spec['l'], i, hd) if hd['t'] == 'p' else mk_gen(spec['l'], i, hd)
-            app.addHandler(handler('e%d' % spec['l'], priority=n - i)(f))
+            comps[hd['ch']].addHandler(handler('e%d' % spec['l'], priority=n - i)(f))
 
     tasks = OrderedTasks()
     if isinstance(getattr(app, '_tasks', None), set):
@@ -163,6 +253,9 @@ def run_script(case):
         old = signal.signal(signal.SIGALRM, _alarm)
         signal.setitimer(signal.ITIMER_REAL, WATCHDOG_S, 1)
     try:
+        for _ in range(4):           # the `registered` event of the second component
+            app.tick()
+        del log[:]
         for spec in case['roots']:
             fire_child(spec, 0)
         rot = case.get('rot') or [0]
@@ -172,9 +265,9 @@ def run_script(case):
                 quiet = True
                 break
             tasks.rot = rot[t % len(rot)]
-            mark = len(log)
+            del stepped[:]
             app.tick()
-            sched.append([[x[1], x[2]] for x in log[mark:] if x[0] == 1])
+            sched.append(list(stepped))
     finally:
         if old is not None:
             signal.setitimer(signal.ITIMER_REAL, 0)
@@ -192,17 +285,24 @@ def b(x):
 
 
 def coq_ev(e):
-    return 'Ev %d %s %s [%s]' % (e['l'], b(e['c']), b(e['x']), '; '.join(coq_hd(h) for h in e['h']))
+    return 'Ev %d %s %s %s %s %d %d [%s]' % (e['l'], b(e['c']), b(e['x']), b(e['s']), b(e['f']), e['p'], e['ch'],
+                                            '; '.join(coq_hd(h) for h in e['h']))
 
 
 def coq_evs(l):
     return '[%s]' % '; '.join(coq_ev(e) for e in l)
 
 
+def coq_step(s):
+    if s['k'] == 'c':
+        return 'GC (%s)' % coq_ev(s['e'])
+    return '%s %s' % ('GR' if s['k'] == 'r' else 'GS', coq_evs(s['f']))
+
+
 def coq_hd(h):
     if h['t'] == 'p':
-        return 'HP %s %s %s' % (coq_evs(h['f']), b(h['s']), b(h['r']))
-    return 'HG [%s]' % '; '.join(coq_evs(st) for st in h['st'])
+        return 'HP %d %s %s %s' % (h['ch'], coq_evs(h['f']), b(h['s']), b(h['r']))
+    return 'HG %d [%s]' % (h['ch'], '; '.join(coq_step(s) for s in h['st']))
 
 
 # ------------------------------------------------------------------------------------ generator
@@ -221,29 +321,43 @@ class Gen:
             out.append(self.ev(d + 1))
         return out
 
-    def ev(self, d, root=False):
+    def ev(self, d, root=False, callee=False):
         rng, p = self.rng, self.p
         self.left -= 1
         self.lbl += 1
+        ch = int(rng.random() < p['ch'])
         e = {'l': self.lbl, 'c': int(rng.random() < (p['croot'] if root else p['c'])),
-             'x': int((not root) and rng.random() < p['x']), 'h': []}
+             'x': int((not root) and (not callee) and rng.random() < p['x']),
+             's': int(rng.random() < p['sf']), 'f': int(rng.random() < p['sf']),
+             'p': 1 if callee or rng.random() > p['prio'] else rng.choice([0, 2, 3]), 'ch': ch, 'h': []}
         if e['x'] and rng.random() < 0.6:
             return e          # handlers of a cancelled event never run; keep a few anyway
         for _ in range(rng.choice([0, 1, 1, 1, 2, 2, 3])):
+            hch = ch if rng.random() > p['ch'] * 0.3 else 1 - ch      # a few handlers on the other channel
             if rng.random() < p['g']:
-                st = [self.kids(d, 2) for _ in range(rng.randint(1, 3))]
-                r = rng.randrange(len(st)) if rng.random() < p['gr'] else -1
-                e['h'].append({'t': 'g', 'st': st, 'r': r})
+                st = []
+                for _ in range(rng.randint(1, 3)):
+                    r = rng.random()
+                    if r < p['call'] and self.left > 0 and d < self.depth:
+                        st.append({'k': 'c', 'e': self.ev(d + 1, callee=True)})
+                    elif r < p['call'] + p['gr']:
+                        st.append({'k': 'r', 'f': self.kids(d, 2)})
+                        break
+                    else:
+                        st.append({'k': 's', 'f': self.kids(d, 2)})
+                e['h'].append({'t': 'g', 'ch': hch, 'st': st})
             else:
-                e['h'].append({'t': 'p', 'f': self.kids(d, 3), 's': int(rng.random() < p['s']),
-                               'r': int(rng.random() < p['r'])})
+                # a stop() in a called event starves waitEvent's handler and hangs the caller (C06's subject)
+                e['h'].append({'t': 'p', 'ch': hch, 'f': self.kids(d, 3),
+                               's': int((not callee) and rng.random() < p['s']), 'r': int(rng.random() < p['r'])})
         return e
 
 
 def gen_case(rng, tier):
     p = {'croot': 0.85, 'c': rng.choice([0.1, 0.3, 0.5]), 'x': rng.choice([0, 0.1, 0.25]),
          'g': rng.choice([0, 0.2, 0.5]), 's': rng.choice([0, 0.15]), 'r': rng.choice([0, 0.15]),
-         'gr': rng.choice([0, 0, 0, 0.2])}
+         'gr': rng.choice([0, 0, 0.15]), 'call': rng.choice([0, 0.2, 0.4]), 'sf': rng.choice([0, 0.25]),
+         'prio': rng.choice([0, 0, 0.3]), 'ch': rng.choice([0, 0, 0.4])}
     g = Gen(rng, rng.choice([4, 8, 14, 20]), rng.choice([2, 3, 5]), p)
     roots = []
     for _ in range(rng.choice([1, 1, 2, 3])):
@@ -259,26 +373,33 @@ class C05(Prop):
     quick_n = 500
     thorough_n = 4000
     rule = ('forests of scripted events (1-3 roots, <= 20 events, depth <= 5, fan-out <= 3 per handler / 2 per generator '
-            'step, 0-3 handlers per event): plain handlers that fire, stop(), raise; generator handlers firing from each '
-            'of 1-3 steps; events cancelled right after being fired; nested complete-requesting events; task-set '
-            'iteration order rotated per tick. non-trivial = a complete-requesting event whose closure has >= 3 events '
-            'and contains a cancelled, stopped, raising or generator-fired event')
-    trusted_base = ['hand-written model Model/Effects.v (fire linking, dispatcher, _eventDone walk, task steps) tied to '
-                    'the repository by this correspondence run on the global handler log',
+            'step, 0-3 handlers per event): plain handlers that fire, stop(), raise; generator handlers with 1-3 steps '
+            'that fire, raise or `yield self.call(event)`; events cancelled right after being fired; nested '
+            'complete-requesting events; success/failure feedback requested; event priorities -1..2; two channels with '
+            'handlers on either; task-set iteration order rotated per tick. non-trivial = a complete-requesting event '
+            'whose closure has >= 3 events and contains a cancelled, stopped, raising, generator-fired or called event')
+    trusted_base = ['hand-written model Model/Effects.v (fire linking, priority queue, dispatcher, _eventDone walk, task '
+                    'steps incl. call/resume) tied to the repository by this correspondence run on the global handler log',
                     'python oracle in harness/c05.py reading the ghost causality tree recorded by the scripted handlers',
-                    'task-set double with controlled iteration order; fire wrapper logging *_complete']
-    assumptions = ['all events fired with priority 0 on one channel; distinct handler priorities',
-                   'handlers do not call flush()/tick()/stop() of the manager, call() or wait()',
-                   'a generator handler that raises is outside the model (oracle only; known finding C05-gen-raise)',
+                    'task-set double with controlled iteration order; fire / processTask wrappers on the root component']
+    assumptions = ['distinct handler priorities per event; one firing thread',
+                   'handlers do not call flush()/tick()/stop() of the manager or wait(); call() only from generator steps, '
+                   'called events are not cancelled and their handlers do not stop() (the caller would hang: C06)',
+                   '<name>_success and <name>_done are fired by _eventDone after handling and are not effects of the '
+                   'event (the code does not track them); exception and <name>_failure are',
                    'a cancelled event is not required to fire its own <name>_complete']
 
     def __init__(self):
         self._obs = {}
         self.stats = {}
 
+    def corpus(self):
+        return [norm_case(c) for c in Prop.corpus(self)]
+
     def generate(self, rng, n, tier):
         cases = [gen_case(rng, tier) for _ in range(n)]
         st = {'events': 0, 'complete': 0, 'cancelled': 0, 'gen_handlers': 0, 'stop': 0, 'raise': 0, 'gen_raise': 0,
+              'calls': 0, 'success': 0, 'failure': 0, 'prio_nonzero': 0, 'chan_b': 0, 'handler_other_chan': 0,
               'multi_root': 0}
         for c in cases:
             st['multi_root'] += len(c['roots']) > 1
@@ -286,10 +407,16 @@ class C05(Prop):
                 st['events'] += 1
                 st['complete'] += e['c']
                 st['cancelled'] += e['x']
+                st['success'] += e['s']
+                st['failure'] += e['f']
+                st['prio_nonzero'] += e['p'] != 1
+                st['chan_b'] += e['ch']
                 for h in e['h']:
+                    st['handler_other_chan'] += h['ch'] != e['ch']
                     if h['t'] == 'g':
                         st['gen_handlers'] += 1
-                        st['gen_raise'] += h.get('r', -1) >= 0
+                        st['gen_raise'] += any(s['k'] == 'r' for s in h['st'])
+                        st['calls'] += sum(s['k'] == 'c' for s in h['st'])
                     else:
                         st['stop'] += h['s']
                         st['raise'] += h['r']
@@ -297,19 +424,17 @@ class C05(Prop):
         return cases
 
     def impl(self, case):
-        obs = run_script(case)
+        obs = run_script(norm_case(case))
         self._obs[common.canon(case)] = obs
         return obs
 
     def model_term(self, case):
-        if has_gen_raise(case['roots']):
-            return None
         obs = self._obs.get(common.canon(case))
         if obs is None:
             obs = self.safe_impl(case)
         sched = obs.get('sched', []) if isinstance(obs, dict) else []
         s = '[%s]' % '; '.join('[%s]' % '; '.join('(%d%%nat, %d%%nat)' % (a, c) for a, c in t) for t in sched)
-        return 'obs_run %s %s %d' % (coq_evs(case['roots']), s, MAXTICKS)
+        return 'obs_run %s %s %d' % (coq_evs(norm_case(case)['roots']), s, MAXTICKS)
 
     def obs_for_model(self, case, obs):
         if isinstance(obs, dict) and '__crash__' in obs:
@@ -323,7 +448,7 @@ class C05(Prop):
         if not obs['quiet']:
             return 'queue and task set did not drain in %d ticks' % MAXTICKS
         log = obs['log']
-        specs = {e['l']: e for e in walk_events(case['roots'])}
+        specs = {e['l']: e for e in walk_events(norm_case(case)['roots'])}
         parent, firedpos = {}, {}
         for pos, x in enumerate(log):
             if x[0] == 5:
@@ -343,6 +468,10 @@ class C05(Prop):
                 todo.extend(kids.get(a, []))
             return out
 
+        def dispatched_handlers(d):
+            """does event d have a handler that the dispatcher must reach first (same channel)?"""
+            return [i for i, h in enumerate(specs[d]['h']) if h['ch'] == specs[d]['ch']]
+
         for l in sorted(parent):
             e = specs[l]
             if not e['c']:
@@ -361,39 +490,30 @@ class C05(Prop):
                 return 'e%d_complete fired once but dispatched %d times' % (l, len(dpos))
             cl = set(closure(l))
             for pos, x in enumerate(log):
-                if pos > fpos[0] and x[0] in (0, 1) and x[1] in cl:
+                if pos <= fpos[0]:
+                    continue
+                if x[0] in (0, 1) and x[1] in cl:
                     return ('early: e%d_complete fired at log position %d before handler entry %r of event %d of its '
                             'closure (event %d)' % (l, fpos[0], x, x[1], l))
-                if pos > fpos[0] and x[0] == 5 and x[2] in cl:
+                if x[0] == 5 and x[2] in cl:
                     return 'early: e%d_complete fired before event %d of its closure was even fired (event %d)' % (l, x[1], l)
+                if x[0] == 6 and x[1] in (0, 1) and x[2] in cl:
+                    return ('early: e%d_complete fired before the %s event of event %d of its closure was dispatched '
+                            '(event %d)' % (l, ['exception', 'failure'][x[1]], x[2], l))
             # every fired, not cancelled member with handlers was dispatched (first handler ran) before
             for d in cl:
-                if specs[d]['x'] or not specs[d]['h']:
+                hs = dispatched_handlers(d)
+                if specs[d]['x'] or not hs:
                     continue
-                first = specs[d]['h'][0]
-                if not any(x[0] in (0, 1) and x[1] == d and x[2] == 0 for x in log[:fpos[0]]):
+                if not any(x[0] in (0, 1) and x[1] == d and x[2] == hs[0] for x in log[:fpos[0]]):
                     return 'early: e%d_complete fired before event %d of its closure was dispatched (event %d)' % (l, d, l)
         return None
 
     def finding_class(self, case, obs, what):
-        # C05-gen-raise: complete never fires for an event whose closure contains a generator handler that raised
-        if what.startswith('never:') and isinstance(obs, dict) and 'log' in obs:
-            l = int(what.rsplit('(event ', 1)[1].rstrip(')'))
-            parent = {x[1]: x[2] for x in obs['log'] if x[0] == 5}
-            specs = {e['l']: e for e in walk_events(case['roots'])}
-            for x in obs['log']:
-                if x[0] == 1:
-                    h = specs[x[1]]['h'][x[2]]
-                    if h.get('r', -1) == x[3]:      # this step raised
-                        a = x[1]
-                        while a and a != l:
-                            a = parent.get(a, 0)
-                        if a == l:
-                            return 'C05-gen-raise'
         return None
 
     def nontrivial(self, case, obs):
-        for r in case['roots']:
+        for r in norm_case(case)['roots']:
             evs = list(walk_events([r]))
             if r['c'] and len(evs) >= 3 and any(
                     e['x'] or any(h['t'] == 'g' or h['s'] or h['r'] for h in e['h']) for e in evs):
